@@ -33,7 +33,9 @@ Min2(a, b) == IF a <= b THEN a ELSE b
 \* rank adjustments made by the orthogonalisation passes before the first sweep:
 \*   left-to-right pass  rank[k+1] = min(rank[k]*N[k], rank[k+1])   k = 0..d-2
 \*   right-to-left pass  rank[k]   = min(N[k]*rank[k+1], rank[k])   k = d-1..1
-\* dmrg_cross: LR pass (lr_orthogonal) then the RL loop; function_interpolate: RL, LR passes, then the RL loop
+\* both routines: RL pass, LR pass (rl_orthogonal, lr_orthogonal), then the RL loop that builds the index sets and
+\* assumes rank[k] <= N[k]*rank[k+1].  (dmrg_cross used to skip the first RL pass: a start tensor with larger
+\* ranks then violated that assumption - finding F30, repaired.)
 PassLR(N, r0) ==
     LET d == Len(N)
         RECURSIVE FixL(_, _)
@@ -46,8 +48,9 @@ PassRL(N, r0) ==
         Fix(r, k) == IF k < 1 THEN r
                      ELSE Fix([r EXCEPT ![k + 1] = Min2(N[k + 1] * r[k + 2], r[k + 1])], k - 1)
     IN Fix(r0, d - 1)
-CrossInit0(N, rank0) == PassRL(N, PassLR(N, rank0))
-InterpInit0(N, rank0) == PassRL(N, PassLR(N, PassRL(N, rank0)))
+SweepInit0(N, rank0) == PassRL(N, PassLR(N, PassRL(N, rank0)))
+\* what the index-set loop relies on
+Admissible(N, r) == \A k \in 1..(Len(N) - 1) : r[k + 1] <= N[k + 1] * r[k + 2]
 
 \* rows / cols of the supercore at step k (0-based), ranks r (1-based storage: r[k+1] = rank[k])
 SRows(N, r, k) == r[k + 1] * N[k + 1]
